@@ -8,7 +8,7 @@ use glass_easel_stylesheet_compiler::{StyleSheetOptions, StyleSheetTransformer};
 const VALUES: &[&str] = &["0", "-0", "0.0", "+0", "1", "75", "750", "-1.5", ".5", "0.001", "0.00000075", "3e10", "30000000000", "1e-3", "7.5e2"];
 const RATIOS: &[f32] = &[750.0, 10.0, 1.0, 0.5, 0.00001, 1000000.0];
 const CONTEXTS: &[(&str, &str)] = &[("a{width:", "}"), ("a{width:calc(1px + ", ")}"), ("@media (min-width:", "){a{}}"), ("a{--x:", "}"), ("a{margin:0 ", "}"), (":host{top:", "}")];
-const BOUND: &str = "15 rpx values x 6 ratios x 6 contexts (declaration, calc, media query, custom property, second value, :host)";
+const BOUND: &str = "15 rpx values x 6 ratios x 6 contexts (declaration, calc, media query, custom property, second value, :host); 44 other numeric spellings (signed zeros, explicit plus, integers, decimals, exponents, percentages, dimensions incl. An+B and look-alike units) x 11 contexts, re-tokenised: kind, unit, explicit sign, integer-ness and value kept";
 
 fn transform(css: &str, ratio: f32) -> String {
     let t = StyleSheetTransformer::from_css("p.wxss", css, StyleSheetOptions { rpx_ratio: ratio, ..Default::default() });
@@ -43,8 +43,71 @@ fn check(value: &str, ratio: f32, ctx: usize) -> Option<(String, String)> {
     if !o2.contains("12px") { return Some((format!("12px in the same context -> {:?}", o2), "12px unchanged".into())); }
     None
 }
+// ---- second clause of C10: every other number, percentage and dimension keeps its value --------------------
+use cssparser::{Parser, ParserInput, Token};
+#[derive(Debug, Clone, PartialEq)]
+struct Num { kind: &'static str, has_sign: bool, value: f32, int_value: Option<i32>, unit: String }
+fn collect(p: &mut Parser, out: &mut Vec<Num>) {
+    loop {
+        let t = match p.next_including_whitespace() { Ok(t) => t.clone(), Err(_) => break };
+        match &t {
+            Token::Number { has_sign, value, int_value } => out.push(Num { kind: "number", has_sign: *has_sign, value: *value, int_value: *int_value, unit: String::new() }),
+            Token::Percentage { has_sign, unit_value, int_value } => out.push(Num { kind: "percentage", has_sign: *has_sign, value: *unit_value, int_value: *int_value, unit: "%".into() }),
+            Token::Dimension { has_sign, value, int_value, unit } => out.push(Num { kind: "dimension", has_sign: *has_sign, value: *value, int_value: *int_value, unit: unit.to_string() }),
+            Token::Function(_) | Token::ParenthesisBlock | Token::SquareBracketBlock | Token::CurlyBracketBlock => {
+                let _ = p.parse_nested_block(|q| -> Result<(), cssparser::ParseError<()>> { collect(q, out); Ok(()) });
+            }
+            _ => {}
+        }
+    }
+}
+fn nums(css: &str) -> Vec<Num> {
+    let mut pi = ParserInput::new(css);
+    let mut p = Parser::new(&mut pi);
+    let mut out = vec![];
+    collect(&mut p, &mut out);
+    out
+}
+/// number spellings: zeros of both signs, an explicit plus, integers, decimals, exponents, percentages, dimensions
+const OTHER: &[&str] = &["0", "-0", "+0", "5", "+5", "-5", "10", "007", "999999", "-999999", "1e3", "+1e3", "1E3", "1.5", "-.5", "+.5", "0.1", "1e-7", "100%", "+50%", "-0%", "33.3333%", "0.5%",
+    "12px", "+12px", "-0px", "1.5em", "3PX", "2n", "+2n", "1e3px", "10vw", "1x", "90deg", "2rpxx", "1e2q",
+    // integers of seven and more digits (exact since fix: formerly rounded to 6 significant digits, DESIGN section 8 D15)
+    "1234567", "9999999", "16777217", "2147483647", "-2147483648", "+2147483647", "16777217px", "-1234567em"];
+/// NON-integers with more than 6 significant digits: cssparser's printer rounds them (DESIGN section 8, D15; the unit test
+/// transform_rpx pins `0.133333vw`) -- recorded as a known finding, enumerated and held to single precision only on request
+const LONG: &[&str] = &["1.2345678", "123456.7px", "0.12345678", "33.333333%"];
+const OCTX: &[(&str, &str)] = &[("a{z-index:", "}"), ("a{margin:0 ", " 1px}"), ("a{width:calc(1px * ", ")}"), ("a{width:calc(", " + 1px)}"), ("@media (min-width:", "){a{top:0}}"), ("a{--x:", "}"), ("a:nth-child(2n", "){top:0}"), ("a:nth-child(", "){top:0}"), ("a{top:", " !important}"), (":host{order:", "}"), ("a{unicode-range:", "}")];
+fn strict_long() -> bool { std::env::var("VX_RPX_LONG").is_ok() }
+fn check_other(value: &str, ctx: usize) -> Option<(String, String)> {
+    let (pre, post) = OCTX[ctx];
+    let css = format!("{}{}{}", pre, value, post);
+    let t = StyleSheetTransformer::from_css("p.wxss", &css, StyleSheetOptions { rpx_ratio: 750., convert_host: true, ..Default::default() });
+    let (a, b) = t.output_and_low_priority_output();
+    let mut out = String::new();
+    a.write_str(&mut out).unwrap();
+    b.write_str(&mut out).unwrap();
+    let (want, got) = (nums(&css), nums(&out));
+    if want.len() != got.len() { return Some((format!("{:?} -> {:?}: {} numeric tokens", css, out, got.len()), format!("{} numeric tokens: {:?}", want.len(), want))); }
+    for (w, g) in want.iter().zip(got.iter()) {
+        let same_value = if w.value == 0.0 { g.value == 0.0 && w.value.is_sign_negative() == g.value.is_sign_negative() }
+            else if let Some(i) = w.int_value { g.int_value == Some(i) && g.value == w.value }
+            else { ((g.value as f64 - w.value as f64) / w.value as f64).abs() <= if strict_long() { 2.4e-7 } else { 2.0e-5 } };
+        if w.kind != g.kind || w.unit != g.unit || w.has_sign != g.has_sign || !same_value || w.int_value.is_some() != g.int_value.is_some() {
+            return Some((format!("{:?} -> {:?}: token {:?}", css, out, g), format!("{:?} (kind, unit, explicit sign, integer-ness and value kept; integers exactly)", w)));
+        }
+    }
+    None
+}
 pub fn search() -> Outcome {
     let mut n = 0u64;
+    for (ci, _) in OCTX.iter().enumerate() {
+        for v in OTHER.iter().chain(if strict_long() { LONG.iter() } else { [].iter() }) {
+            n += 1;
+            if let Some((got, want)) = check_other(v, ci) {
+                return Outcome { found: true, input: format!("other\t{}\t{}", v, ci), observed: got, expected: want, evaluations: n, bound: BOUND.into() };
+            }
+        }
+    }
     for (ci, _) in CONTEXTS.iter().enumerate() {
         for r in RATIOS {
             for v in VALUES {
@@ -59,6 +122,12 @@ pub fn search() -> Outcome {
 }
 pub fn run(input: &str) -> Outcome {
     let p: Vec<&str> = input.split('\t').collect();
+    if p[0] == "other" {
+        return match check_other(p[1], p[2].parse().unwrap()) {
+            Some((got, want)) => Outcome { found: true, input: input.into(), observed: got, expected: want, evaluations: 1, bound: "single input".into() },
+            None => Outcome { found: false, input: input.into(), observed: String::new(), expected: String::new(), evaluations: 1, bound: "single input".into() },
+        };
+    }
     match check(p[0], p[1].parse().unwrap(), p[2].parse().unwrap()) {
         Some((got, want)) => Outcome { found: true, input: input.into(), observed: got, expected: want, evaluations: 1, bound: "single input".into() },
         None => Outcome { found: false, input: input.into(), observed: String::new(), expected: String::new(), evaluations: 1, bound: "single input".into() },
